@@ -483,6 +483,9 @@ class Cache2D:
         # Copy our first cache to start the output
         new_cache = copy.deepcopy(caches[0])
         for other in caches[1:]:
+            if not np.array_equal(other.gammas, new_cache.gammas):
+                raise ValueError("Merged cache conflicts with current: "
+                                 "caches were built on different gamma grids.")
             for ii, row in enumerate(other.spectra):
                 for jj, fs in enumerate(row):
                     if fs is not None:
